@@ -89,3 +89,50 @@ PROPS["C08"] = dict(
         per_format("tiny", "^TestC08Tiny$", 1 if tier == "quick" else 3, formats=STATEFUL, timeout=900, shrinktime="1s"),
     ],
 )
+
+
+def seeded(name, pkg, run, checks, shards, **kw):
+    j = dict(name=name, pkg=pkg, run=run, checks=checks, shards=shards)
+    j.update(kw)
+    return j
+
+
+PROPS["C09"] = dict(
+    title="RTSP header codecs round-trip and parse deterministically",
+    pkg="hdr",
+    rule=("(value) rapid-generated well-formed values of Transport, Transports, Session, Range (NPT ms resolution, SMPTE frames/subframes, UTC "
+          "seconds, optional time=), RTP-Info (1..6 entries), WWW-Authenticate, Authorization (Basic incl. ':' and non-ASCII passwords; Digest), "
+          "KeyMgmt and MIKEY messages (T, RAND 16..255 bytes, SP 0..12 params, KEMAC 1..3 TEKs with/without SPI, 0..8 CS-ID entries): "
+          "Unmarshal(Marshal(v)) == v and Marshal is identical over 5 calls; (string) arbitrary strings, mutated marshalled values and "
+          "'field soups' drawn from each header's own key vocabulary (conflicting keys, several invalid fields) parsed 40 times in fresh values: "
+          "one identical value or one identical error text, no panic; (sweep) every millisecond NPT value in generated 2000-value windows "
+          "(thorough: all 0..10^7 ms). Non-trivial: value with >=2 optional fields/entries set; string with >=1 separator; every sweep window. "
+          "Distinct by case hash."),
+    assumptions=[
+        "quoted-string fields contain no double quote, Transport hosts no ';' or ',', Basic user names no ':' (the grammars of the headers themselves)",
+        "each parse builds a fresh map, so 40 parses re-randomise Go's map iteration order 40 times; an order dependence with k outcomes escapes with probability <= (1/2)^39 per input",
+    ],
+    jobs=lambda tier: [
+        seeded("roundtrip", "hdr", "^TestC09RoundTrip$", 3000 if tier == "quick" else 20000, 1 if tier == "quick" else 8, timeout=1800),
+        seeded("parse", "hdr", "^TestC09Parse$", 3000 if tier == "quick" else 20000, 1 if tier == "quick" else 8, timeout=1800),
+        seeded("nptsweep", "hdr", "^TestC09NPTSweep$", 150 if tier == "quick" else 600, 1 if tier == "quick" else 4, timeout=1800),
+    ] + ([seeded("nptexhaustive", "hdr", "^TestC09NPTExhaustive$", 1, 16, timeout=3000)] if tier == "thorough" else []),
+)
+
+PROPS["C10"] = dict(
+    title="Authentication is complete for right credentials and sound against wrong ones",
+    pkg="hdr",
+    kinds={"unit": "hdr", "e2e": "e2e"},
+    rule=("(unit) rapid-generated (user, password incl. ':' / spaces / non-ASCII, realm, nonce, method among the ten RTSP methods, URL with "
+          "paths/queries/track suffixes/IPv6, every non-empty ordered subset of {Basic, Digest-MD5, Digest-SHA-256}); challenge by "
+          "GenerateWWWAuthenticate, credentials by auth.Sender, verdict by auth.Verify; unperturbed => accepted; exactly one of user, password, "
+          "realm, nonce, method, algorithm, URL, enabled-scheme changed => rejected (realm/nonce/method/URL only bind Digest credentials); the "
+          "documented SETUP base-URL relaxation => accepted. Non-trivial: a perturbed case or a password containing ':' or a space. Distinct by case hash."),
+    assumptions=[
+        "which scheme the client picked is read off the Authorization header it produced, not re-derived from the library's preference order",
+        "Basic credentials carry no realm/nonce/method/URL, so perturbing those leaves a Basic request valid by construction of the scheme",
+    ],
+    jobs=lambda tier: [
+        seeded("unit", "hdr", "^TestC10Unit$", 6000 if tier == "quick" else 40000, 1 if tier == "quick" else 8, timeout=1800),
+    ],
+)
